@@ -60,6 +60,12 @@ func vnW(mode int) {
 			break
 		}
 		off := vOffsetIn(data, whole)
+		if mode&vnC11 != 0 {
+			// an embedded NUL is reported as an error: no token may carry one
+			for j := range data {
+				vAssert(data[j] != 0, "nul-inside-token")
+			}
+		}
 		if mode&vnC01 != 0 {
 			vAssert(off >= 0 && off+len(data) <= n, "token-outside-input")
 			vAssert(z.Offset() <= n, "offset-past-end")
